@@ -34,7 +34,7 @@ class C01(Prop):
     trusted = ["Python's tuple rich-comparison protocol and int/str comparison as modelled in PkgModel/Version.lean",
                "hash() as an uninterpreted function of the comparison key"]
     partial = ["hash(): only 'equal keys give equal hashes' is proved; hash values themselves are CPython's"]
-    budget = {"quick": (4000, 6000), "thorough": (150000, 200000)}
+    budget = {"quick": (4000, 6000), "thorough": (600000, 900000)}
 
     def gen_cases(self, rng, n):
         pool = G.pool(rng, max(20, n // 20))
